@@ -431,18 +431,15 @@ class Interp:
     def instantiate(self, clsname, args, kwargs=None):
         kwargs = kwargs or {}
         if clsname == 'TrackedArray':
-            if len(args) != 1:
-                raise AbstractRaise('TypeError', 'TrackedArray() takes 1 argument')
-            src = args[0]
-            if isinstance(src, (AForeign, ASparse)):
-                src = Box(snap(Rat.atom(('foreign', getattr(src, 'kind', 'sparse')))))     # np.asarray(x): a 0-d array
-            b = Box(snap(src))
-            if isinstance(src, Box):
-                b.log, b.base_zero = list(src.log), src.base_zero          # a flat vector keeps its scattered entries there
-            b.attrs['_modified'] = False
-            b.attrs['tracked'] = True
-            b.attrs['shares'] = src if isinstance(src, (Box, View)) else None
-            return b
+            # the class's own __new__ is interpreted (argument checks it may do included); `np.asarray(x).view(cls)` inside it is
+            # the one library step, modelled by tracked_view below
+            new = self.sm.find_method('TrackedArray', '__new__')
+            if new is None:
+                raise AnalysisError("TrackedArray has no __new__: its construction is not modelled")
+            r = self.call_function(new, [AClassRef('TrackedArray')] + list(args), kwargs)
+            if not (isinstance(r, Box) and r.attrs.get('tracked')):
+                raise AnalysisError("TrackedArray.__new__ does not return a TrackedArray view of its input: not modelled")
+            return r
         if clsname == 'SignedTuple':
             raise AnalysisError("SignedTuple is not modelled")
         obj = AObj(clsname)
@@ -884,6 +881,19 @@ class Interp:
             base[R(key).as_int()] = v
             return
         raise AnalysisError(f"subscript store on {base!r}")
+
+    def tracked_view(self, src):
+        """np.asarray(src).view(TrackedArray): a new array object on the storage of `src`"""
+        if isinstance(src, (AForeign, ASparse)):
+            src = Box(snap(Rat.atom(('foreign', getattr(src, 'kind', 'sparse')))))     # np.asarray(x): a 0-d array
+        if not is_arraylike(src):
+            raise AnalysisError(f"TrackedArray view of {type(src).__name__}")
+        b = Box(snap(src))
+        if isinstance(src, Box):
+            b.log, b.base_zero = list(src.log), src.base_zero          # a flat vector keeps its scattered entries there
+        b.attrs['tracked'] = True
+        b.attrs['shares'] = src if isinstance(src, (Box, View)) else None
+        return b
 
     def set_attr(self, obj, name, v, lineno):
         if isinstance(obj, AObj):
